@@ -1326,6 +1326,10 @@ class LogixDriver(CIPDriver):
 
             tag_info = self._get_tag_info(base, attrs)
 
+            for _indexes in tag.split("[")[1:]:
+                if not all(_idx.isdigit() for _idx in _indexes.split("]")[0].split(",")):
+                    raise RequestError(f"Invalid array index in tag request: {request_tag}")
+
             if tag_info["data_type"] == "DWORD":
                 _tag, idx = util.get_array_index(tag)
                 if idx is not None:
@@ -1334,6 +1338,9 @@ class LogixDriver(CIPDriver):
                 bool_elements = None if implicit_element or elements == 1 else elements
                 total_size = (bit or 0) + elements
                 elements = (total_size // 32) + (1 if total_size % 32 else 0)
+
+            if not 0 < elements <= 65535:
+                raise RequestError(f"Invalid element count in tag request: {elements}")
 
             return {
                 "user_tag": request_tag,  # tag name from user, without element request
